@@ -312,6 +312,29 @@ func (a *FuncAn) condFacts(s *State, cond ssa.Value, truth bool) {
 			}
 			s.nonnil[a.cv(ta.X)] = true
 		}
+		// `v, ok := f(); if ok {…}`: results that are non-nil whenever the callee returns ok == true
+		if call, ok := c.Tuple.(*ssa.Call); ok && truth {
+			if sums, okS := a.E.joinSummaries(call); okS {
+				all := len(sums) > 0
+				for _, sm := range sums {
+					if !sm.OkBool || sm.ErrIdx != c.Index {
+						all = false
+					}
+				}
+				if all {
+					for j, nn := range a.E.nonNilOnSuccess(a, call, c.Index) {
+						if !nn {
+							continue
+						}
+						for _, r := range *call.Referrers() {
+							if e, ok := r.(*ssa.Extract); ok && e.Index == j {
+								s.nonnil[e] = true
+							}
+						}
+					}
+				}
+			}
+		}
 		return
 	case *ssa.BinOp:
 		op := c.Op
@@ -394,6 +417,72 @@ func (a *FuncAn) condFacts(s *State, cond ssa.Value, truth bool) {
 			delete(a.provers, s)
 			for _, f := range nf {
 				s.AddFact(f)
+			}
+			switch op {
+			case token.LSS:
+				a.stridedLemma(s, c.X, c.Y)
+			case token.GTR:
+				a.stridedLemma(s, c.Y, c.X)
+			}
+		}
+	}
+}
+
+// stridedLemma: x < B where x is a loop counter that starts at 0 and advances by a loop-invariant stride st >= 1
+// (x = phi(0, x + st)), and B is a multiple of st (the state knows B' % st == 0 for a B' with the same linear form):
+// then x is a multiple of st below the multiple B, hence x + st <= B. This is the idiom
+// `if len(data)%n != 0 { return err }; for off := 0; off < len(data); off += n { data[off : off+n] }`.
+// (Assumption A1: the index arithmetic does not overflow.)
+func (a *FuncAn) stridedLemma(s *State, xv, bv ssa.Value) {
+	phi, ok := xv.(*ssa.Phi)
+	if !ok || len(phi.Edges) != 2 {
+		return
+	}
+	var step ssa.Value
+	zero := false
+	for _, e := range phi.Edges {
+		if k, ok := e.(*ssa.Const); ok && k.Value != nil && k.Int64() == 0 {
+			zero = true
+			continue
+		}
+		if bo, ok := e.(*ssa.BinOp); ok && bo.Op == token.ADD {
+			if bo.X == ssa.Value(phi) {
+				step = bo.Y
+			} else if bo.Y == ssa.Value(phi) {
+				step = bo.X
+			}
+		}
+	}
+	if !zero || step == nil {
+		return
+	}
+	// the stride is the same value on every iteration: a parameter, a constant, or defined in a block that
+	// strictly dominates the loop head
+	switch d := step.(type) {
+	case *ssa.Parameter, *ssa.Const:
+	case ssa.Instruction:
+		if d.Block() == phi.Block() || !d.Block().Dominates(phi.Block()) {
+			return
+		}
+	default:
+		return
+	}
+	st, bl := a.Lin(step), a.Lin(bv)
+	p := a.proverFor(s)
+	if !p.Entails(st.plus(-1)) {
+		return
+	}
+	for _, b := range a.Fn.Blocks {
+		for _, ins := range b.Instrs {
+			rem, ok := ins.(*ssa.BinOp)
+			if !ok || rem.Op != token.REM || a.Lin(rem.Y).key() != st.key() || a.Lin(rem.X).key() != bl.key() {
+				continue
+			}
+			r := a.Lin(rem)
+			if p.Entails(Scale(r, -1)) && p.Entails(r) {
+				delete(a.provers, s)
+				s.AddFact(Add(Add(bl, a.Lin(xv), -1), st, -1))
+				return
 			}
 		}
 	}
